@@ -65,7 +65,10 @@ CLAIMS["C07"] = proof(
     "in every quiescent reachable state with a permit available no polled acquire future is pending; from the ownership invariant of the event list (C07_invariant). The code proved is the repaired one (fix 4946253). "
     "Schedule half: the attempt to prove it exposed a genuine defect (F5: a notified waiter preempted inside its poll absorbs the notify(1) of later releases and then acquires without passing anything on), "
     "reproduced on the real crate by the loom search (loomsearch/sem_absorbed_release) and repaired by fix 04640ce (a completing acquire notifies once more when permits are left); model, proofs and tie pins follow the repaired code; "
-    "the loom scenario runs on every check as search support (bounded exploration, not a proof). " + CORR, NOTE)
+    "the loom scenario runs on every check as search support (bounded exploration, not a proof). Schedule half PROVED for the repaired code: C07_sched — on the micro-step machine of coq/Sched/SemEvSched.v "
+    "(every poll cut at each atomic action on the counter and each critical section of the event list, guard drop and add_permits cut between fetch_add and notify, any number of futures, releasing and barging threads, spurious polls, cancellation) "
+    "for EVERY schedule a state with a permit available, nothing in flight and every woken future re-polled has no waiting future; C07_sched_inflight for states not at rest; C07_sched_prefix_refuted: the machine without the repair loses a wake-up on the F5 schedule. "
+    "Which machine the source is (gen_baton) is read from the generated site table on every run (premise sem_baton_premise). " + CORR, NOTE)
 
 CLAIMS["C05"] = proof(
     "History half proved at full strength: C05_hist — for every history shorter than 2^61 operations (lock and lock_arc futures, each polled with any wakers, spuriously, in any order; every outcome of the starvation clock "
